@@ -851,3 +851,30 @@ def install_rolling_patch():
         return orig(self, window, min_periods, center, *a, **k)
 
     _pd.Series.rolling = rolling
+
+
+_red_patched = False
+
+
+def install_reduction_patches():
+    """pd.Series.median / mean / std / var / quantile called as plain functions
+    (e.g. ``estimator = pd.Series.median``) reach the same models as the
+    rewritten method calls."""
+    global _red_patched
+    if _red_patched:
+        return
+    _red_patched = True
+    for name in ("median", "mean", "std", "var"):
+        orig = getattr(_pd.Series, name)
+        model = _MODELS[name]
+
+        def make(orig, model):
+            def f(self, *a, **k):
+                if _sym_mode() and self.dtype == object and has_sym(self):
+                    return model(self, *a, **k)
+                return orig(self, *a, **k)
+
+            f.__name__ = orig.__name__
+            return f
+
+        setattr(_pd.Series, name, make(orig, model))
